@@ -30,7 +30,7 @@ FORMS = ['aggregate-rows', 'aggregate-value', 'aggregate-values', 'aggregate-len
          'aggregate-multi-none', 'rowreduce', 'rowgroupmap', 'fold', 'groupselectfirst', 'groupselectlast', 'groupselectmin', 'groupselectmax',
          'mergeduplicates', 'merge', 'groupcountdistinctvalues', 'rowgroupby', 'rowgroupby-callable', 'valuecounts', 'valuecounter']
 REQUIRED = (['form:' + f for f in FORMS] + ['key-none-group', 'equal-but-different-type-keys-in-one-group', 'single-row-group-first', 'single-row-group-last',
-            'compound-key', 'chunked', 'presorted', 'header-only', 'rows-handed-to-recorders', 'min/max-tie', 'merge:header-only-table-not-last'])
+            'compound-key', 'chunked', 'presorted', 'header-only', 'rows-handed-to-recorders', 'min/max-tie', 'merge:header-only-table-not-last', 'mergeduplicates:non-default-missing', 'mergeduplicates:short-rows', 'key-by-index'])
 KPOOL = [None, 1, 1.0, True, 2, 'a', 'b', b'a', (1, 2), gen.D(2020, 1, 1)]
 LISTKEY = [1, 2]      # a list-valued key cell is equivalent to the tuple (1, 2) under the ordering (C04): one group
 VPOOL = [0, 1, 2, 3, 5, -1, 2.5]
@@ -57,9 +57,18 @@ def cases(ctx):
         t = [H] + [[rng.choice(kp), rng.choice(jp), rng.choice(VPOOL), 'r%d' % r] for r in range(n)]
         r = rng.random()
         key = 'k' if r < 0.6 else (('k', 'j') if r < 0.85 else (['k'] if f.startswith('aggregate') else ['k', 'j']))
+        if f in ('groupselectfirst', 'groupselectlast', 'groupselectmin', 'groupselectmax', 'rowreduce', 'rowgroupmap', 'fold') and rng.random() < 0.25:
+            key = 0          # the key as a field index (index 0 included); these forms do not echo the key argument in their header
         if f == 'groupcountdistinctvalues':
             key = 'k'        # documented for "the `key` field" only
-        yield {'form': f, 'table': t, 'key': key, 'buffersize': rng.choice([None, None, 1, 2, 3]), 'presorted': rng.random() < 0.2}
+        c = {'form': f, 'table': t, 'key': key, 'buffersize': rng.choice([None, None, 1, 2, 3]), 'presorted': rng.random() < 0.2}
+        if f in ('mergeduplicates', 'merge') and rng.random() < 0.5:
+            c['missing'] = rng.choice(['NA', 0, 'x'])
+            if f == 'mergeduplicates':
+                for r_ in t[1:]:
+                    if rng.random() < 0.35:
+                        del r_[rng.randint(2, 3):]          # short rows (key fields k, j stay)
+        yield c
 
 
 # ---------------------------------------------------------------------------
@@ -97,6 +106,8 @@ def judge(case, ctx):
         ctx.seen('header-only')
     if compound:
         ctx.seen('compound-key')
+    if isinstance(key, int):
+        ctx.seen('key-by-index')
     if any(all(x is None for x in g[0]) for g in groups):
         ctx.seen('key-none-group')
     if any(len({util.canon(tuple(r[i] for i in kidx)) for r in g[1]}) > 1 for g in groups):
@@ -270,7 +281,14 @@ def judge(case, ctx):
                     out.append({'kind': 'selected-row-is-not-an-input-row', 'row': r})
         compare(got, exp)
     elif form == 'mergeduplicates':
-        got = util.attempt_rows(lambda: petl.mergeduplicates(src, keyarg if not isinstance(keyarg, int) else 'k', **kw))
+        missing = case.get('missing')
+        mkw = dict(kw)
+        if missing is not None:
+            mkw['missing'] = missing
+            ctx.seen('mergeduplicates:non-default-missing')
+        if any(len(r) < len(hdr) for r in rows):
+            ctx.seen('mergeduplicates:short-rows')
+        got = util.attempt_rows(lambda: petl.mergeduplicates(src, keyarg if not isinstance(keyarg, int) else 'k', **mkw))
         others = [i for i in range(len(hdr)) if i not in kidx]
         exp = [khdr + tuple(hdr[i] for i in others)]
         for g in groups:
@@ -278,9 +296,10 @@ def judge(case, ctx):
             for i in others:
                 vals = []
                 for r in g[1]:
-                    if r[i] is not None and not any(r[i] == x for x in vals):
+                    # a cell the row does not have, or one equal to `missing`, contributes no value
+                    if i < len(r) and r[i] != missing and not any(r[i] == x for x in vals):
                         vals.append(r[i])
-                o.append(vals[0] if len(vals) == 1 else (None if not vals else ('CONFLICT', frozenset(vals))))
+                o.append(vals[0] if len(vals) == 1 else (missing if not vals else ('CONFLICT', frozenset(vals))))
             exp.append(tuple(o))
         if not isinstance(got, util.Raised):
             got = [tuple(('CONFLICT', frozenset(c)) if isinstance(c, Conflict) else c for c in r) for r in got]
